@@ -132,7 +132,7 @@ def st_mod(base):
             lambda t: {"kind": "pre_option", "step": t[0], "name": t[1], "value": t[2]}))
     # --- representation variants (must NOT change the hash)
     mods.append(st.sampled_from(["range_tuple", "ints_as_floats", "floats_as_ints", "segment_name", "bool_as_int",
-                                 "kws_order", "options_order", "copy_params", "pre_tuple", "param_fit_byproducts", "int_range",
+                                 "kws_order", "options_order", "copy_params", "params_order", "pre_tuple", "param_fit_byproducts", "int_range",
                                  "int_range"]).map(
         lambda v: {"kind": "representation", "variant": v}))
     # --- documented don't-cares
@@ -319,6 +319,17 @@ def build(base, mod=None, fit=False):
             kw["method_kws"] = dict(reversed(list(kw["method_kws"].items())))
         elif variant == "copy_params":
             pi = copy.deepcopy(pi)
+        elif variant == "params_order":
+            # the same parameters (name, value, bounds, vary, expr), inserted in the reverse order
+            import lmfit
+            rev = lmfit.Parameters()
+            for n_ in reversed(list(pi.keys())):
+                par = pi[n_]
+                rev.add(n_, value=par.value, min=par.min, max=par.max, vary=par.vary)
+            for n_ in pi:
+                if pi[n_].expr:
+                    rev[n_].set(expr=pi[n_].expr)
+            pi = rev
         elif variant == "param_fit_byproducts":
             # the same settings on Parameter objects that went through a fit (stderr, correl, init_value are results)
             pi = copy.deepcopy(pi)
@@ -375,6 +386,16 @@ def check_case(case, ctx):
     if kind in ("representation", "dontcare"):
         ctx.check(h1 == h2, "hash-depends-on-" + kind, desc, f"{label}: {h1} vs {h2} ({json.dumps(mod)})")
     else:
+        if kind == "data":
+            # "changing ... a single data sample changes the hash": stated unconditionally, also for a sample of the
+            # segment that is not fitted - provided the change survives the preprocessing (a 1 ulp change can be
+            # rounded away by an offset correction, a median filter can absorb a sample)
+            seen_differs = any(not np.array_equal(i1[c], i2[c]) for c in (kw1["x_axis"], kw1["y_axis"]))
+            if seen_differs:
+                ctx.check(h1 != h2, "data-change-same-hash", desc,
+                          f"{label} ({json.dumps(mod)}): the abscissa/ordinate seen by the fit differ, hash {h1} for both")
+            else:
+                ctx.event("data_change_absorbed_by_preprocessing")
         if h1 == h2:
             # allowed only if the change cannot influence the result
             with fitgen.catch() as box:
